@@ -18,6 +18,14 @@ pub fn dispatch(op: &str, req: &Value) -> Result<Value, String> {
         return crate::ops_common::c04(kind, req);
     }
     #[cfg(feature = "common")]
+    if let Some(k) = op.strip_prefix("c13:") {
+        return crate::ops_common::c13(k, req);
+    }
+    #[cfg(feature = "common")]
+    if op == "c16:select" {
+        return crate::ops_common::c16(req);
+    }
+    #[cfg(feature = "common")]
     if op == "c10acc" {
         return crate::ops_common::c10acc(req);
     }
